@@ -36,73 +36,113 @@ def applyOp (S : Schema) (set : Marks) : Op → Marks
   | .add m => m.addToSet S set
   | .remove m => m.removeFromSet set
 
+/-- `Sorted` is rank order in `Pairwise` form -/
+theorem sorted_iff : ∀ l : Marks, Sorted l ↔ RankSorted l
+  | [] => by simp [Sorted]
+  | [_] => by simp [Sorted]
+  | a :: b :: rest => by
+    have ih := sorted_iff (b :: rest)
+    simp only [Sorted, ih]
+    constructor
+    · intro ⟨hab, hp⟩
+      refine List.pairwise_cons.mpr ⟨?_, hp⟩
+      intro x hx
+      rcases List.mem_cons.mp hx with rfl | hx
+      · exact hab
+      · exact Nat.le_trans hab ((List.pairwise_cons.mp hp).1 x hx)
+    · intro hp
+      have ⟨h1, h2⟩ := List.pairwise_cons.mp hp
+      exact ⟨h1 b (by simp), h2⟩
+
+theorem canon_iff (S : Schema) (l : Marks) : Canon S l ↔ CanonP S l :=
+  ⟨fun h => ⟨(sorted_iff l).mp h.sorted, h.nodup, h.exclFree⟩,
+   fun h => ⟨(sorted_iff l).mpr h.sorted, h.nodup, h.exclFree⟩⟩
+
 /-- **add_to_set follows the documented rule**, for every schema, mark and set (canonical or not). -/
 theorem addToSet_spec (S : Schema) (m : Mark) (set : Marks) : m.addToSet S set = addSpec S m set := by
-  sorry
+  exact addToSet_eq S m set
 
 /-- membership after a (successful) addition: the new mark plus exactly the marks it does not exclude -/
 theorem addToSet_mem (S : Schema) (m : Mark) (set : Marks) (x : Mark)
     (h1 : m ∉ set) (h2 : ∀ o, o ∈ set → S.excludes m.ty o.ty = false → S.excludes o.ty m.ty = false) :
     x ∈ m.addToSet S set ↔ x = m ∨ (x ∈ set ∧ S.excludes m.ty x.ty = false) := by
-  sorry
+  rw [addToSet_eq]
+  have hc : (set.any (fun o => o == m) ||
+      set.any (fun o => !S.excludes m.ty o.ty && S.excludes o.ty m.ty)) = false := by
+    simp only [Bool.or_eq_false_iff, List.any_eq_false, beq_iff_eq, Bool.and_eq_true,
+      Bool.not_eq_eq_eq_not, Bool.not_true, not_and, Bool.not_eq_true]
+    exact ⟨fun o ho e => h1 (e ▸ ho), h2⟩
+  rw [hc]
+  simp [mem_insertByRank, List.mem_filter]
 
 /-- **adding preserves canonical form** -/
 theorem addToSet_canonical (S : Schema) (m : Mark) (set : Marks) (h : Canon S set) :
     Canon S (m.addToSet S set) := by
-  sorry
+  exact (canon_iff S _).mpr (addToSet_canonP S m set ((canon_iff S _).mp h))
 
 /-- removing preserves canonical form -/
 theorem removeFromSet_canonical (S : Schema) (m : Mark) (set : Marks) (h : Canon S set) :
     Canon S (m.removeFromSet set) := by
-  sorry
+  exact (canon_iff S _).mpr (removeFromSet_canonP S m set ((canon_iff S _).mp h))
 
 /-- **every mark set reachable by any sequence of additions and removals is canonical** -/
 theorem reachable_canonical (S : Schema) (ops : List Op) : Canon S (ops.foldl (applyOp S) []) := by
-  sorry
+  suffices h : ∀ (ops : List Op) (acc : Marks), Canon S acc → Canon S (ops.foldl (applyOp S) acc) from
+    h ops [] ((canon_iff S _).mpr (CanonP.nil S))
+  intro ops
+  induction ops with
+  | nil => intro acc h; exact h
+  | cons op rest ih =>
+    intro acc h
+    refine ih _ ?_
+    cases op with
+    | add m => exact addToSet_canonical S m acc h
+    | remove m => exact removeFromSet_canonical S m acc h
 
 /-- `Node.check`'s test ("re-adding every mark in order reproduces the set") accepts exactly the
     canonical sets -/
 theorem canonicalMarks_iff (S : Schema) (set : Marks) : canonicalMarks S set = true ↔ Canon S set := by
-  sorry
+  exact (canonicalMarks_iff_canonP S set).trans (canon_iff S set).symm
 
 /-- removal, membership and equality are set operations over (type, attributes) -/
 theorem removeFromSet_mem (m x : Mark) (set : Marks) : x ∈ m.removeFromSet set ↔ x ∈ set ∧ x ≠ m := by
-  sorry
+  simp [Mark.removeFromSet, List.mem_filter]
 
 theorem removeFromSet_sublist (m : Mark) (set : Marks) : (m.removeFromSet set).Sublist set := by
-  sorry
+  exact List.filter_sublist
 
 theorem isInSet_iff (m : Mark) (set : Marks) : m.isInSet set = true ↔ m ∈ set := by
-  sorry
+  simp [Mark.isInSet]
 
 theorem sameSet_iff (a b : Marks) : sameSet a b = true ↔ a = b := by
-  sorry
+  simp [sameSet]
 
 /-- `set_from` sorts by rank and keeps every mark -/
 theorem setFrom_sorted (l : Marks) : Sorted (setFrom l) := by
-  sorry
+  exact (sorted_iff _).mpr (setFrom_sorted' l)
 
 theorem setFrom_perm (l : Marks) : (setFrom l).Perm l := by
-  sorry
+  exact setFrom_perm' l
 
 /-- **filtering for a parent type** keeps exactly the marks whose types the parent allows, in order -/
 theorem allowedMarks_spec (nt : NodeType) (ms : Marks) :
     nt.allowedMarks ms = ms.filter (fun m => nt.allowsMarkType m.ty) ∧
     (nt.allowedMarks ms).Sublist ms ∧
     nt.allowsMarks (nt.allowedMarks ms) = true := by
-  sorry
+  refine ⟨rfl, List.filter_sublist, ?_⟩
+  simp [NodeType.allowsMarks, NodeType.allowedMarks, List.all_eq_true]
 
 theorem allowsMarks_iff (nt : NodeType) (ms : Marks) :
     nt.allowsMarks ms = true ↔ ∀ m, m ∈ ms → nt.allowsMarkType m.ty = true := by
-  sorry
+  simp [NodeType.allowsMarks, List.all_eq_true]
 
 theorem allowedMarks_id_iff (nt : NodeType) (ms : Marks) :
     nt.allowedMarks ms = ms ↔ nt.allowsMarks ms = true := by
-  sorry
+  simp [NodeType.allowedMarks, NodeType.allowsMarks, List.filter_eq_self, List.all_eq_true]
 
 /-- filtering a canonical set keeps it canonical -/
 theorem allowedMarks_canonical (S : Schema) (nt : NodeType) (ms : Marks) (h : Canon S ms) :
     Canon S (nt.allowedMarks ms) := by
-  sorry
+  exact (canon_iff S _).mpr (((canon_iff S _).mp h).sublist List.filter_sublist)
 
 end PM.C14
